@@ -30,6 +30,12 @@ def run_entry(entry, props, kind):
     try:
         subprocess.run(["git", "-C", "/repo", "worktree", "add", "--detach", w, "HEAD"],
                        check=True, stdout=subprocess.DEVNULL, stderr=subprocess.DEVNULL)
+        if entry.get("base"):
+            bp = os.path.join(VERIF, entry["base"])
+            rb = subprocess.run(["git", "-C", w, "apply", bp], stderr=subprocess.PIPE, text=True)
+            if rb.returncode != 0:
+                res["error"] = "base patch does not apply: " + rb.stderr[-200:]
+                return res
         for (rel, old, new) in entry["edits"]:
             p = os.path.join(w, rel)
             s = open(p).read()
